@@ -25,6 +25,8 @@ def gen_family(seed, fam):
     those calls, so that one fresh-process reference per distinct call serves many runs (a forked child
     costs ~35 ms in this sandbox and page faults do not scale across cores)."""
     r = seeds.rng(seed, 'api-family', fam)
+    if r.random() < 0.1:
+        return gen_sweep_family(r)
     big = r.random() < 0.3            # allow mid-sized / docs sources (their runs are always sequential)
     pool_src = _sources_for(r, not big)
     byname = dict(pool_src)
@@ -173,6 +175,28 @@ def gen_family(seed, fam):
             'feeder': feeder, 'consumer': consumer, 'concat': concat, 'ref_hs_draw': r.getrandbits(30)}
 
 
+SWEEP_OPTION_SETS = [
+    {'kw': {}, 'ra': 'omit'},
+    {'kw': {'rename_globals': True}, 'ra': 'omit'},
+    {'kw': {'remove_literal_statements': True, 'remove_asserts': True, 'remove_debug': True}, 'ra': True},
+    {'kw': {'rename_globals': True, 'hoist_literals': False}, 'ra': False},
+]
+
+
+def gen_sweep_family(r):
+    """Systematic part of the history search: ~30 corpus modules of every kind, ONE option set, and each run of the
+    family minifies all of them once, in a fresh random order, in one process.  A run covers every ordered pair
+    "module A somewhere before module B" of its permutation (435 pairs), so state that one KIND of module leaves
+    behind for another kind is reached without a hand-written pair."""
+    pool = [(n, s) for n, s in corpus.api_small()] + [(n, b) for n, b in corpus.api_bytes()]
+    pool = [x for x in pool if 'a59_' not in x[0] and 'a56_' not in x[0]]       # (stack-hungry / slow ones stay in their themes)
+    chosen = r.sample(pool, 30)
+    opt = r.choice(SWEEP_OPTION_SETS)
+    templates = [{'api': 'minify', 'src': i, 'kw': dict(opt['kw']), 'ra': opt['ra']} for i in range(len(chosen))]
+    return {'sources': [c[1] for c in chosen], 'names': [c[0] for c in chosen], 'lists': [[]], 'opts': [], 'templates': templates,
+            'big': True, 'feeder': None, 'consumer': None, 'concat': False, 'ref_hs_draw': r.getrandbits(30), 'sweep': True}
+
+
 _family_cache = {}
 
 
@@ -203,6 +227,11 @@ def gen_api_spec(seed, index, nhs, tier):
     else:
         ncalls = r.choice([1, 2, 3, 4, 6, 8, 12, 20, 30, 45])
     seq = [r.randrange(len(templates)) for _ in range(ncalls)]
+    if fam.get('sweep'):
+        seq = list(range(len(templates)))
+        r.shuffle(seq)
+        ncalls = len(seq)
+        meta['sweep'] = True
     if threaded and r.random() < 0.35:
         # symmetric load: every thread runs the same call (the most direct way for two calls to collide)
         seq = [seq[0]] * ncalls
